@@ -83,6 +83,7 @@ func runC08(c *core.Ctx) {
 	c.Rule("R5", "readiness latch", 3)
 	c.Rule("R6", "single actor: exported lifecycler methods reach a KV CAS only through the actor loop", 20)
 	c.Rule("R7", "published token lists are sorted", 8)
+	c.Rule("R9", "token top-up: request (target − held) tokens and append them to the held list, so a fresh join ends with the configured count and inherited tokens are kept", 5)
 	c.Rule("R8", "tokens inherited from the ring are kept: a heartbeat re-publishes the ring entry's tokens when the entry exists, the remembered ones only when it is missing", 4)
 	pkg := c.Prog.Pkg("ring")
 	if pkg == nil {
@@ -103,6 +104,7 @@ func runC08(c *core.Ctx) {
 	c08Ready(c, pkg)
 	c08Sorted(c, pkg, fns)
 	c09HeartbeatAs(c, "R8")
+	c09TopUpAs(c, "R9")
 	c08SingleActor(c, pkg, fns)
 }
 
@@ -239,18 +241,24 @@ func c08Transitions(c *core.Ctx, pkg *packages.Package, fns []*an.Fn) {
 			arg := call.In.Canon(call.Expr.Args[0])
 			key := "setState:func=" + fn.Name + ":arg=" + arg
 			switch {
-			case fn.Name == "(*Lifecycler).changeState":
-				c.Hold("R2", key, call.Expr.Pos(), "after the transition guard", 1)
+			case fn.Name == "(*Lifecycler).changeState" && arg == "p1":
+				c.Hold("R2", key, call.Expr.Pos(), "the requested state, after the transition guard", 1)
 			case fn.Name == "(*Lifecycler).autoJoin" && arg == "p1":
 				// callers pass constants JOINING/ACTIVE and the lifecycler is PENDING then
 				ok := true
 				args := []string{}
 				for _, f2 := range an.Funcs(pkg) {
 					for _, c2 := range f2.CallsTo(true, "ring", "(*Lifecycler).autoJoin") {
-						a := c2.In.ConstName(c2.Expr.Args[1])
-						args = append(args, a)
-						if a != "JOINING" && a != "ACTIVE" {
+						as, isConst := c2.In.ConstNames(c2.Expr.Args[1])
+						if !isConst {
 							ok = false
+							args = append(args, c2.In.Canon(c2.Expr.Args[1]))
+						}
+						for _, a := range as {
+							args = append(args, a)
+							if a != "JOINING" && a != "ACTIVE" {
+								ok = false
+							}
 						}
 					}
 				}
